@@ -70,15 +70,15 @@ def eCheck : Eff := Eff.call "requestConnectivityCheck" []
 
 /-- **T: `Agent.addRemoteCandidate`**, all arguments: a filtered candidate → `false`, nothing touched; an `Equal`
 candidate listed → `true`, nothing touched; otherwise supersede peer-reflexive candidates, (a passive candidate of an
-enabled network type with active TCP on: dial it), append and store, pair with every local candidate of the network
+enabled network type with active TCP on and the host candidate type enabled — fix of C18-G13 —: dial it), append and store, pair with every local candidate of the network
 type that has no pair yet UNLESS the candidate is tcptype passive, request a check, `true`.  (`TCPTypePassive` = 2;
 the loop over the local candidates is one iteration between `for:locals` and `end:locals`.) -/
 theorem addRemoteCandidate_tie (accepted : Bool) (equalListed : List Bool) (disableActiveTCP : Bool) (tcpType : Int64)
-    (netEnabled hasLocals noPair : Bool) :
-    IceGen.agent_addRemoteCandidate accepted equalListed disableActiveTCP tcpType netEnabled hasLocals noPair
+    (hostEnabled netEnabled hasLocals noPair : Bool) :
+    IceGen.agent_addRemoteCandidate accepted equalListed disableActiveTCP tcpType hostEnabled netEnabled hasLocals noPair
       = if !accepted then ([], false)
         else if equalListed.any id then ([], true)
-        else ([eReplace] ++ (if !disableActiveTCP && tcpType == 2 && netEnabled then [ePassive] else [])
+        else ([eReplace] ++ (if !disableActiveTCP && tcpType == 2 && hostEnabled && netEnabled then [ePassive] else [])
               ++ [eAppend, eStore]
               ++ (if tcpType != 2 && hasLocals then [eFor] ++ (if noPair then [eAddPair] else []) ++ [eEnd] else [])
               ++ [eCheck], true) := by
@@ -88,16 +88,16 @@ theorem addRemoteCandidate_tie (accepted : Bool) (equalListed : List Bool) (disa
   cases accepted <;> cases (equalListed.any id) <;> try rfl
   have hne : (tcpType != 2) = !(tcpType == 2) := rfl
   rw [hne]
-  cases disableActiveTCP <;> cases (tcpType == 2) <;> cases netEnabled <;> cases hasLocals <;> cases noPair <;> rfl
+  cases disableActiveTCP <;> cases (tcpType == 2) <;> cases hostEnabled <;> cases netEnabled <;> cases hasLocals <;> cases noPair <;> rfl
 
 /-- the model's filter and duplicate exits are the two exits of the Go task that touch nothing -/
-theorem addRemoteCandidate_exits (a : Agent) (c : Cand) (dis : Bool) (tt : Int64) (ne hl np : Bool) :
+theorem addRemoteCandidate_exits (a : Agent) (c : Cand) (dis : Bool) (tt : Int64) (he ne hl np : Bool) :
     (a.cfg.blockedIPs.contains (ipOf c.addr) = true →
-      IceGen.agent_addRemoteCandidate false ((a.remotes.filter (·.net == c.net)).map (·.equal c)) dis tt ne hl np = ([], false)
+      IceGen.agent_addRemoteCandidate false ((a.remotes.filter (·.net == c.net)).map (·.equal c)) dis tt he ne hl np = ([], false)
       ∧ a.addRemoteCandidate c = (a, [], none)) ∧
     (∀ e, a.cfg.blockedIPs.contains (ipOf c.addr) = false →
       (a.remotes.filter (·.net == c.net)).find? (·.equal c) = some e →
-      IceGen.agent_addRemoteCandidate true ((a.remotes.filter (·.net == c.net)).map (·.equal c)) dis tt ne hl np = ([], true)
+      IceGen.agent_addRemoteCandidate true ((a.remotes.filter (·.net == c.net)).map (·.equal c)) dis tt he ne hl np = ([], true)
       ∧ a.addRemoteCandidate c = (a, [], some e)) := by
   refine ⟨fun h => ⟨by rw [addRemoteCandidate_tie]; rfl, addRemoteCandidate_filtered a c h⟩, fun e h hd => ⟨?_, addRemoteCandidate_duplicate a c e h hd⟩⟩
   rw [addRemoteCandidate_tie]
@@ -108,9 +108,9 @@ theorem addRemoteCandidate_exits (a : Agent) (c : Cand) (dis : Bool) (tt : Int64
 
 /-- the pairing rule: the Go task runs the pairing loop iff the candidate is not tcptype passive, and the model pairs
 with the local candidates of the network type iff `c.tt != 2` -/
-theorem addRemoteCandidate_pairing (a : Agent) (c : Cand) (h : c.tt < 2 ^ 63) (eq : List Bool) (dis ne np : Bool)
+theorem addRemoteCandidate_pairing (a : Agent) (c : Cand) (h : c.tt < 2 ^ 63) (eq : List Bool) (dis he ne np : Bool)
     (hnodup : eq.any id = false) :
-    (IceGen.agent_addRemoteCandidate true eq dis (Int64.ofNat c.tt) ne true np).1.contains eFor = (c.tt != 2) ∧
+    (IceGen.agent_addRemoteCandidate true eq dis (Int64.ofNat c.tt) he ne true np).1.contains eFor = (c.tt != 2) ∧
     (a.locals.filter fun (x : Cand) => x.net == c.net && c.tt != 2)
       = (if c.tt != 2 then a.locals.filter (fun x => x.net == c.net) else []) := by
   refine ⟨?_, pairing_locals a c⟩
@@ -120,7 +120,7 @@ theorem addRemoteCandidate_pairing (a : Agent) (c : Cand) (h : c.tt < 2 ^ 63) (e
   have hne' : (c.tt != 2) = !(c.tt == 2) := rfl
   rw [hne, e, hnodup, hne']
   generalize (c.tt == 2) = b
-  cases b <;> cases dis <;> cases ne <;> cases np <;> decide
+  cases b <;> cases dis <;> cases he <;> cases ne <;> cases np <;> decide
 
 /-! ## `Cand.taEqual`, `Cand.equal` of the agent model -/
 
